@@ -57,6 +57,12 @@ Conforms(ev) ==
     [] ev.t = "adapt" ->
          LET s == Session[ev.sid] IN
          s.indomain => \A h \in DOMAIN ev.got : AdaptorsAgree(Answer(s.blocks, ev.q, h \notin NoParamIndex), ev.got[h])
+    \* production-sized inputs, whose answers TLC cannot derive from the bytes: what the statements say directly.
+    \* "alone": each of the answers a query got from a handle shared by many threads, the very first time that
+    \* handle was asked anything, is the answer the query gets when issued alone (C20); "agree": the mapper with
+    \* parameter index and the cache answer a query identically (C02)
+    [] ev.t = "alone" -> \A j \in 1..Len(ev.shared) : ev.shared[j] = ev.alone
+    [] ev.t = "agree" -> ev.got.mapperp = ev.got.cache
     [] ev.t = "call" -> Completed(ev)
     [] ev.t = "soup" -> ev.failing = <<>>          \* bounded-exhaustive token strings: every call completed
     [] ev.t = "q" ->
